@@ -66,7 +66,7 @@ def main():
         b = wt + '/_build'
         rc, out = sh('cmake -G Ninja -S %s -B %s -DCMAKE_BUILD_TYPE=RelWithDebInfo -DCMAKE_CXX_FLAGS=-Wno-error -DST_BUILD_TESTS=ON '
                      '-DFETCHCONTENT_SOURCE_DIR_GTEST=/usr/src/googletest -DFETCHCONTENT_FULLY_DISCONNECTED=ON >/dev/null 2>&1 && '
-                     'cmake --build %s -j8 2>&1 | tail -3 && %s/test/st_gtests 2>&1 | tail -3' % (wt, b, b, b), timeout=1800)
+                     'cmake --build %s -j8 2>&1 | tail -3 && %s/test/st_gtests 2>&1 | tail -3' % (wt, b, b, b), timeout=1800, cwd=wt)
         m = re.search(r'PASSED\s+\]\s+(\d+) tests', out)
         res['tests_passed'] = int(m.group(1)) if m else 0
         res['tests_all_pass'] = bool(m) and 'FAILED' not in out
